@@ -57,6 +57,13 @@ Section Recv.
     exfalso. assert (nparts [] = 0%nat) by (apply nparts_zero; reflexivity). lia.
   Qed.
 
+  Lemma expect_err n rd pre i e : fst (expect n rd pre i) = Err e -> e = OldDelta \/ e = DuplicatePart.
+  Proof.
+    unfold expect. destruct (covers n pre); [intros [= <-]; left; reflexivity|].
+    destruct (seen pre i); [intros [= <-]; right; reflexivity|].
+    destruct (covers n (pre ++ [Part i])); cbn [fst]; discriminate.
+  Qed.
+
   Lemma expect_rd n rd pre i rd' : fst (expect n rd pre i) = Ok (Some rd') -> rd' = rd.
   Proof.
     unfold expect. destruct (covers n pre); [discriminate|]. destruct (seen pre i); [discriminate|].
@@ -88,7 +95,9 @@ Section Recv.
     rinv s -> G x -> is_i32 (x_base x) = true -> Z.of_nat (length (x_data x)) <= 65536 -> In m (x_msgs x) ->
     rinv (fst (recv_step s m))
     /\ is_panic (fst (snd (recv_step s m))) = false
-    /\ (forall rd, fst (snd (recv_step s m)) = Ok (Some rd) -> rd = x_rd x).
+    /\ (forall rd, fst (snd (recv_step s m)) = Ok (Some rd) -> rd = x_rd x)
+    /\ (forall e, fst (snd (recv_step s m)) = Err e ->
+          e = OldDelta \/ e = DuplicatePart \/ (e = InvalidNumParts /\ (32 < nparts (x_data x))%nat)).
   Proof.
     intros Hinv HG Hb Hlen Hin. pose proof Hinv as [Hwf Hcur].
     assert (Htick : msg_tick m = x_tick x).
@@ -97,7 +106,8 @@ Section Recv.
       - destruct Hin as [<-|[]]. reflexivity.
       - unfold multi_msgs in Hin. apply in_map_iff in Hin. destruct Hin as [i [<- _]]. reflexivity. }
     destruct (can_receive s (msg_tick m)) eqn:Hc.
-    2:{ rewrite (cannot_receive s m Hc). cbn [fst snd]. split; [exact Hinv|]. split; [reflexivity|]. intros rd H. discriminate. }
+    2:{ rewrite (cannot_receive s m Hc). cbn [fst snd]. split; [exact Hinv|]. split; [reflexivity|].
+        split; [intros rd H; discriminate|]. intros e [= <-]. left. reflexivity. }
     rewrite Htick in Hc.
     assert (Hsmall : msg_small m = true).
     { unfold msg_small. apply Z.leb_le. unfold x_msgs, xfer_msgs in Hin.
@@ -116,12 +126,14 @@ Section Recv.
       destruct Hin as [<-|[]]. apply nparts_zero in E.
       cbn [recv_step] in *. unfold snap_empty in *. rewrite Hc in *. cbn [negb fst snd] in *.
       split; [apply rinv_idle; [exact Hwf'|reflexivity]|]. split; [reflexivity|].
+      split; [|intros e H; discriminate].
       intros rd [= <-]. unfold x_rd, delivered, x_dt. rewrite E. rewrite wrap32_sub_sub by exact Hb. reflexivity.
     - (* SnapSingle *)
       destruct Hin as [<-|[]].
       assert (Hne : x_data x <> []) by (intros H0; apply nparts_zero in H0; lia).
       cbn [recv_step] in *. unfold snap_single in *. rewrite Hc in *. cbn [negb fst snd] in *.
       split; [apply rinv_idle; [exact Hwf'|reflexivity]|]. split; [reflexivity|].
+      split; [|intros e H; discriminate].
       intros rd [= <-]. unfold x_rd, delivered, x_dt. rewrite wrap32_sub_sub by exact Hb.
       cbn [set_result finish_delta init_delta r_result app].
       destruct (x_data x); [contradiction|reflexivity].
@@ -134,7 +146,8 @@ Section Recv.
         unfold part_msg in *. cbn [recv_step] in *. rewrite chunks_of_length, E in *.
         rewrite snap_refused in *. rewrite Hc in *. cbn [negb] in *.
         replace ((0 <=? Z.of_nat n) && (Z.of_nat n <=? 32)) with false in * by lia. cbn [negb fst snd] in *.
-        split; [exact Hinv|]. split; [reflexivity|]. intros rd H. discriminate. }
+        split; [exact Hinv|]. split; [reflexivity|]. split; [intros rd H; discriminate|].
+        intros e [= <-]. right. right. split; [reflexivity|lia]. }
       assert (Hn : (2 <= nparts (x_data x) <= 32)%nat) by (rewrite E; unfold n; lia).
       assert (Hl1 : (1 <= length (chunks_of (x_data x)))%nat) by (rewrite chunks_of_length; lia).
       assert (Hl32 : (length (chunks_of (x_data x)) <= 32)%nat) by (rewrite chunks_of_length; lia).
@@ -159,8 +172,10 @@ Section Recv.
       split.
       + apply (phase_rinv x (pre ++ [Part i])); try assumption.
         rewrite any_part_app. cbn [any_part existsb]. apply orb_true_r.
-      + split; [exact Hnp|]. intros rd Hrd. rewrite Ho in Hrd. apply expect_rd in Hrd. subst rd.
-        apply multi_rd; [exact Hb|lia].
+      + split; [exact Hnp|]. split.
+        * intros rd Hrd. rewrite Ho in Hrd. apply expect_rd in Hrd. subst rd.
+          apply multi_rd; [exact Hb|lia].
+        * intros e He. rewrite Ho in He. apply expect_err in He. tauto.
   Qed.
 End Recv.
 
